@@ -7,12 +7,15 @@ import (
 	"errors"
 
 	"github.com/pion/interceptor"
+	"github.com/pion/interceptor/pkg/flexfec"
 	"github.com/pion/interceptor/pkg/intervalpli"
 	"github.com/pion/interceptor/pkg/jitterbuffer"
 	"github.com/pion/interceptor/pkg/nack"
 	"github.com/pion/interceptor/pkg/packetdump"
 	"github.com/pion/interceptor/pkg/report"
 	"github.com/pion/interceptor/pkg/rfc8888"
+	"github.com/pion/interceptor/pkg/rtpfb"
+	"github.com/pion/interceptor/pkg/stats"
 	"github.com/pion/interceptor/pkg/twcc"
 	"github.com/pion/rtcp"
 	"github.com/pion/rtp"
@@ -70,6 +73,14 @@ func member(k int) interceptor.Interceptor {
 		f, err = packetdump.NewReceiverInterceptor()
 	case 10:
 		f, err = intervalpli.NewReceiverInterceptor()
+	case 11:
+		f, err = rtpfb.NewInterceptor()
+	case 12:
+		f, err = stats.NewInterceptor()
+	case 13:
+		f, err = flexfec.NewFecInterceptor()
+	case 14:
+		f, err = packetdump.NewSenderInterceptor()
 	default:
 		f, err = jitterbuffer.NewInterceptor()
 	}
@@ -97,6 +108,12 @@ func HC01Chain() {
 	nk := vr.Param("members", 8)
 	a := vr.Concretize(vr.NondetInt(0, nk-1))
 	b := vr.Concretize(vr.NondetInt(0, nk-1))
+	if fa := vr.Param("first", -1); fa >= 0 {
+		a = fa // pair a fixed extra interceptor kind with every kind below `members`
+		if vr.Param("swap", 0) != 0 {
+			a, b = b, a
+		}
+	}
 	pa, pb := &proxy{Interceptor: member(a)}, &proxy{Interceptor: member(b)}
 	if vr.NondetBool() {
 		pa.closeErr = errClose[0]
